@@ -561,3 +561,83 @@ def replay_path(system, data, path, queries=False):
                           for n, r in i._capture_regions.items()],
                       'decision': system.decision(obj)})
     return obj, trace
+
+
+# ---------------------------------------------------------------------------
+# chunk presentation: the same bytes handed over as bytes / as one re-used
+# bytearray / as memoryview slices of one re-used read buffer (the readinto()
+# loop of a zero-copy reader). What an inspector concludes, and what it
+# retains, must not depend on the container the caller used - nor change when
+# the caller re-uses its buffer afterwards.
+
+class TypedSrc:
+    def __init__(self, data, kind):
+        self.data, self.kind, self.pos = data, kind, 0
+        self.buf = bytearray(max(1, len(data)))
+        self.ba = bytearray()
+        self.last = None
+
+    def present(self, chunk):
+        n = len(chunk)
+        if self.kind == 'bytes':
+            return chunk
+        if self.kind == 'bytearray':
+            del self.ba[:]
+            self.ba += chunk
+            self.last = ('ba', n)
+            return self.ba
+        self.buf[:n] = chunk
+        self.last = ('mv', n)
+        return memoryview(self.buf)[:n]
+
+    def scribble(self):
+        """The caller re-uses its buffer."""
+        if self.last is None:
+            return
+        kind, n = self.last
+        if kind == 'ba':
+            self.ba[:] = b'\xaa' * len(self.ba)
+        else:
+            self.buf[:n] = b'\xaa' * n
+
+    def read(self, n):
+        c = self.data[self.pos:self.pos + n]
+        self.pos += len(c)
+        return self.present(c)
+
+    def close(self):
+        pass
+
+
+def typed_run(sysname, data, cuts, kind, allowed=None):
+    """One linear run over `cuts` with chunks presented as `kind`.
+    -> (verdict or ('error', cls), list of region problems)"""
+    src = TypedSrc(data, kind)
+    pts = [0] + [c for c in sorted(set(cuts)) if 0 < c < len(data)] + [len(data)]
+    bad = []
+    try:
+        if sysname == 'wrapper':
+            w = fi.InspectWrapper(src, allowed_formats=allowed)
+            w._inspectors = DetSet(w._inspectors)
+            for a, b in zip(pts, pts[1:]):
+                got = w.read(b - a)
+                if bytes(got) != data[a:b]:
+                    return ('transparency-broken',), bad
+                src.scribble()
+            w.close()
+            for i in w._inspectors:
+                bad += [(i.NAME,) + x for x in region_exactness(i, data, len(data))]
+            sysm = WrapperSystem()
+            return sysm.verdict(w), bad
+        insp = fi.ALL_FORMATS[sysname]()
+        for a, b in zip(pts, pts[1:]):
+            insp.eat_chunk(src.present(data[a:b]))
+            src.scribble()
+        insp.finish()
+        bad = region_exactness(insp, data, len(data))
+        for r in insp._capture_regions.values():
+            if not isinstance(r.data, bytes):
+                bad.append(('retains-a-%s' % type(r.data).__name__,))
+        return verdict_inspector(insp), bad
+    except Exception as e:
+        return ('error', type(e).__name__), bad
